@@ -127,8 +127,8 @@ theorem safe_call {s s' : State} {t : Nat} {op : Op} (hs : Safe s)
         · intro q e
           have hi := idS hf.2
           split at e
-          · cases e; exact ⟨hi.1, hi.2, by simp [hOK], rfl⟩
-          · cases e; exact hi
+          · cases e; exact ⟨hi, fun h => by simp [sendK] at h, by simp [hOK], rfl⟩
+          · cases e; exact ⟨hi, fun h => by simp [sendK] at h⟩
         · intro r q e; split at e <;> cases e
       · cases h
     case sConv =>
@@ -171,7 +171,7 @@ theorem safe_call {s s' : State} {t : Nat} {op : Op} (hs : Safe s)
           (fun q e => by cases e) (fun r' q' e => by cases e; exact ⟨hlt, hrn⟩)
           (fun e => hs.idle e) ?_
         · exact sFact_mono_R (c := s.core) rfl rfl rfl rfl rfl rfl rfl rfl (Nat.le_refl _) (fun _ _ => Nat.le_refl _) h
-        · exact rFact_ext (c := s.core) (fun _ => False) hs.g (Nat.le_refl _) (fun _ _ _ => ⟨rfl, rfl, rfl, rfl, rfl⟩) rfl rfl
+        · exact rFact_ext (c := s.core) (fun _ => False) hs.g (Nat.le_refl _) (fun _ _ _ => ⟨rfl, rfl, rfl, rfl, rfl⟩) rfl rfl rfl
             (fun _ _ _ h => h) (fun e => e) (fun _ _ e => e) h
         · intro n hn
           show upd s.rOwner r (some t) n = none
